@@ -26,6 +26,8 @@ Verdicts(e) ==
   \cup (IF e.changed_ok THEN {} ELSE {"C13.repair_writes_only_originals"})
   \cup (IF e.outside = << >> THEN {} ELSE {"C13.nothing_else_modified"})
   \cup (IF (~e.fatal /\ e.repair.err = "") => e.restored THEN {} ELSE {"C13.repair_success_means_restored"})
+  \* a clean verdict is truthful: Verify says "no repair needed" only when every data file is its original
+  \cup (IF (e.fmt = "par1" /\ e.verify.err = "" /\ ~e.verify.needed) => e.intact_data = e.n THEN {} ELSE {"C13.verify_result_truthful"})
 
 Init == l = 1
 Next == /\ l <= Len(Trace)
